@@ -95,6 +95,7 @@ REFINE = {
 }
 
 EXTRA = {
+ "C08": " Every fault point: Model/Fault.lean is the dispatcher with one injected failure (countdown over every dispatched message); FaultAtomic.fault_fails_tx proves for every k, world and transaction of every kind that a transaction which succeeds although fault k was armed never reached it and has the normal result (a fired fault fails the whole call; stepF_atomic: nothing changes), fault_profile gives the exact profile; the harness's fault mode and the theorem speak about the same indices (the driver compares, per engine transaction and index, whether the model's tree reaches the index and whether the implementation's sub-call exists).",
  "C14": " Registry clause Spec.C14.checkReg (a successful RemoveVamm / AddVamm changes exactly the named entry, nothing else changes the registry): SatExtra3.sat_C14_reg, reachable_extra3, history_extra3.",
  "C18": " Feed clause Spec.C18F.recordedOk (an accepted submission is exactly one new round with the submitted values, older rounds untouched; latest / n-back answers are judged against what was SUBMITTED): C18FRec.appendPrice_recorded / appendMultiple_recorded.",
  "C20": " Deployment: Engine.instantiate is modelled (Model/Instantiate.lean) and compared with the contract on boundary-biased instantiate probes (EINST lines, incl. collaterals with 0..39 decimals); Inst.instantiate_ok_iff (accepts exactly the in-bounds messages), instantiate_configOK, instantiate_fresh.",
@@ -109,7 +110,10 @@ def refine_text(pid):
                 "the native caller attaches exactly what the cw20 run pulls (flat / same-side opens; whole closes without vault shortfall and with the fee "
                 "payable up front); SatGReduce.twin_open_reduce / twin_close_partial prove the same for reducing orders and partial closes (both directions, with non-vacuity "
                 "worlds evaluated by the kernel; the native partial close does not compare the attached amount with the fees, witness F10d, hence the fee-equality premise "
-                "of direction B); the recorded findings F10a/b/c and one more divergence are kernel-evaluated witness worlds (SatGWitness). Not covered: reversing orders.")
+                "of direction B); SatGReverse.twin_open_reverse_closeonly / twin_open_reverse_reopen cover reversing orders, the latter under NetsOKQ, which is exact "
+                "(reopen_exact: given a successful cw20 run the native run with the pulled amount succeeds iff NetsOKQ; F10a is the kernel-evaluated violation); "
+                "the recorded findings F10a/b/c and one more divergence are kernel-evaluated witness worlds (SatGWitness). Known-finding signatures carry the "
+                "reference model's verdict on the same pair of calls, so a divergence the model does not predict is reported. Not covered: a history-level statement.")
     if pid not in REFINE:
         return ""
     return (f" Refinement layer: {REFINE[pid]} proves, for every world, block, sender, funds and transaction, that the observation record of the "
@@ -121,7 +125,10 @@ def refine_text(pid):
             "monitored on the IMPLEMENTATION: Spec.Monitor gives Boolean versions of Deployed / AllInv / SideOK, proved equivalent to the Props "
             "(MonitorSound.deployed_iff / allInv_iff / side_iff); the driver evaluates them on every observed deployment and step, reports in "
             "evidence.coverage.theorem_domain how many observed steps lie inside the theorems' domain, and treats a violated prediction AllInv(post) "
-            "on an in-domain step as a correspondence break." + EXTRA.get(pid, ""))
+            "on an in-domain step as a correspondence break. CapstoneTx re-proves the capstone under the per-transaction hypothesis CurveRegularTx "
+            "(unit reserves; no overshoot of the re-quote when THIS transaction is a partial close of a short) instead of the global price condition: "
+            "reachable_sat_tx / history_sat_tx / reachable_sat_all_tx, monitors in MonitorTxSound; measured on the implementation 98-99 % of observed steps "
+            "lie inside this domain. DeployOK.deploy_deployed: the instantiate entry points followed by the wiring transactions yield a Deployed world." + EXTRA.get(pid, ""))
 
 NOT_YET = "not claimed in this commit: world-level model/theorems under construction (DESIGN.md §8 build order)"
 
